@@ -386,6 +386,7 @@ class ExpSystem(System):
         call(lambda: (f.expansions, f.elements_added, f.estimated_elements, f.false_positive_rate, f.hash_function))
 
     def _queries(self, cfg, st, bad):
+        pristine = self.clone(st)  # taken before any query of this state: the "untouched" twin
         f = st.impl
         before = self._obs(cfg, f)
         self._ro(cfg, st)
@@ -403,7 +404,7 @@ class ExpSystem(System):
                 if a1 != a2:
                     bad("C19", "exp.answers_independent_of_earlier_queries", {"live": repr(a1)[:300], "fresh_load": repr(a2)[:300]})
         if self.cur_depth <= cfg.get("twin_depth", 2):
-            div = twin_divergence(self, cfg, st, lambda q: self._ro(cfg, q), lambda x: self._obs(cfg, x.impl))
+            div = twin_divergence(self, cfg, pristine, lambda q: self._ro(cfg, q), lambda x: self._obs(cfg, x.impl))
             if div is not None:
                 bad("C19", "exp.queried_twin_diverges_one_step_later", div)
 
